@@ -21,7 +21,7 @@ import ast
 import itertools
 
 from verifkit import pat
-from verifkit.absrun import Obj, Runner
+from verifkit.absrun import Obj, Runner, StandIn
 from verifkit.core import Outcome
 from verifkit.finite import Undecided
 from rules import C08
@@ -323,19 +323,42 @@ def r01_1(ctx):
 # ---------------------------------------------------------------------------
 # R01.2 / R01.3: abstract run of the cores
 
+class ZBox(StandIn):
+    def __init__(self, zone):
+        self.zone = zone
+
+    def __and__(self, o):
+        return self if self.zone == o.zone else None
+
+    def __bool__(self):
+        return True
+
+
+class JStand(Obj):
+    pass
+
+
 def _world():
-    """two stand-in shapes; status of each piece's midpoint w.r.t. the *other* shape"""
+    """two stand-in shapes; status of each piece's midpoint w.r.t. the *other* shape.  The first curve of B is far
+    away (its bounding box meets no curve of A); the second one crosses A."""
     IN, OUT, ON = "in", "out", "on"
     status = {}
+
     def seg(name, st):
         o = Obj(name)
         status[name] = st
         return o
-    ja0 = Obj("JA0", segments=(seg("a00", IN), seg("a01", OUT), seg("a02", ON)))
-    ja1 = Obj("JA1", segments=(seg("a10", IN),))
-    jb0 = Obj("JB0", segments=(seg("b00", IN), seg("b01", OUT), seg("b02", ON)))
+
+    def curve(name, zone, segs):
+        o = Obj(name, segments=tuple(segs))
+        o.__dict__["_zone"] = zone
+        return o
+    ja0 = curve("JA0", "near", [seg("a00", IN), seg("a01", OUT), seg("a02", ON)])
+    ja1 = curve("JA1", "near", [seg("a10", IN)])
+    jb0 = curve("JB0", "far", [seg("b00", OUT)])
+    jb1 = curve("JB1", "near", [seg("b10", IN), seg("b11", OUT), seg("b12", ON)])
     A = Obj("A", jordans=(ja0, ja1))
-    Bs = Obj("B", jordans=(jb0,))
+    Bs = Obj("B", jordans=(jb0, jb1))
     return A, Bs, status
 
 
@@ -365,6 +388,8 @@ def run_core(ctx, name):
         if cname == "split_two_jordans":
             events.append(("split", args[0]._name, args[1]._name))
             return None
+        if cname == "box" and isinstance(recv, Obj) and "_zone" in recv.__dict__:
+            return ZBox(recv.__dict__["_zone"])
         if cname == "follow_path":
             captured["jordans"], captured["indexs"] = args[0], args[1]
             return ("result",)
@@ -382,7 +407,7 @@ def r01_2(ctx):
                            "closed other operand, intersection those in the open other operand; both operands treated "
                            "alike; index offset of the second operand consistent with the curve list handed on", floor=2)
     out.exhaustive = True
-    want = {"or_shapes": {"a01", "b01"}, "and_shapes": {"a00", "a10", "b00"}}
+    want = {"or_shapes": {"a01", "b00", "b11"}, "and_shapes": {"a00", "a10", "b10"}}
     for name in ("or_shapes", "and_shapes"):
         fn = ctx.fn(f"shape.FollowPath.{name}")
         try:
@@ -423,8 +448,8 @@ def r01_2(ctx):
 
 
 def r01_3(ctx):
-    out = Outcome("R01.3", "every pair of boundary curves (A.jordans x B.jordans) is split before the first midpoint is "
-                           "tested", floor=2)
+    out = Outcome("R01.3", "every pair of boundary curves whose bounding boxes meet is split before the first midpoint "
+                           "is tested (a far-away curve listed first must not hide a later crossing one)", floor=2)
     out.exhaustive = True
     for name in ("or_shapes", "and_shapes"):
         fn = ctx.fn(f"shape.FollowPath.{name}")
@@ -435,7 +460,7 @@ def r01_3(ctx):
             continue
         first_test = next((i for i, e in enumerate(events) if e[0] == "test"), len(events))
         splits = {(e[1], e[2]) for e in events[:first_test] if e[0] == "split"}
-        need = {("JA0", "JB0"), ("JA1", "JB0")}
+        need = {("JA0", "JB1"), ("JA1", "JB1")}      # the pairs whose bounding boxes meet
         norm = {tuple(sorted(p)) for p in splits}
         if {tuple(sorted(p)) for p in need} - norm:
             out.bad(fn.qname, "not every pair of boundary curves is split at its crossings before pieces are selected",
@@ -646,4 +671,12 @@ def r01_5(ctx):
     return [o1, o2]
 
 
-RULES = [r01_1, r01_2, r01_3, r01_4, r01_5]
+def r01_6(ctx):
+    from rules import C09
+    out = Outcome("R01.6", "every boundary curve takes part: `jordans` covers every subshape and no function uses one "
+                           "curve of a possibly multi-curve shape for the whole shape", floor=3)
+    C09.jordans_coverage(ctx, out)
+    return out
+
+
+RULES = [r01_1, r01_2, r01_3, r01_4, r01_5, r01_6]
